@@ -88,6 +88,9 @@ GROUP = {
             old(self).is_alias(value) ==> r == Err::<T, InternError>(InternError::AlreadyAlias) && final(self).records@ == old(self).records@,   // @InternStore.insert_canonical.rejects_alias
             !old(self).is_alias(value) ==> (r matches Ok(x) && x.interned() == InternedStr(as_static(value)) && final(self).is_canonical(value)
                 && final(self).records@ == old(self).records@.insert(as_static(value), None)),                                                  // @InternStore.insert_canonical.registers
+            // frame (used as an assumed interface by ProcessAccumulator::process in group bookkeep): no OTHER name changes its status
+            forall|n: &str| as_static(n) != as_static(value) ==> final(self).is_canonical(n) == old(self).is_canonical(n),   // @InternStore.insert_canonical.other_names_keep_their_status
+            forall|n: &str| final(self).is_alias(n) ==> old(self).is_alias(n),                                                // @InternStore.insert_canonical.makes_no_alias
 """, **ST),
         U("InternStore::insert_alias", IN, HDR + [r"pub fn insert_alias\b"], fn="insert_alias", wrap=IMPL, rewrites=[RET()],
           contract="""
@@ -104,6 +107,8 @@ GROUP = {
                 && final(self).records@ == old(self).records@.insert(as_static(value), Some(canonical.interned())),   // @InternStore.insert_alias.registers
             // transparency: afterwards the alias means the canonical
             (r is Ok && !old(self).is_alias(value)) ==> final(self).lookup(value) == Some(canonical.interned()),      // @InternStore.insert_alias.alias_means_canonical
+            forall|n: &str| final(self).is_canonical(n) ==> old(self).is_canonical(n),                                       // @InternStore.insert_alias.makes_no_canonical
+            forall|n: &str| as_static(n) != as_static(value) ==> final(self).is_alias(n) == old(self).is_alias(n),          // @InternStore.insert_alias.other_names_keep_their_status
 """, **ST),
         # ---- `okane accounts` / the register's account set: only canonical entries of the store are listed, never an alias
         U("callsite:ReportContext::all_accounts_unsorted.keeps_canonical_only", "core/src/report/context.rs", [r"impl<'ctx> ReportContext<'ctx>", r"fn all_accounts_unsorted\b"], fn="listed_account", no_canary=True,
